@@ -86,15 +86,20 @@ func short(s string) string {
 
 // setupBlocks: the committed state every child starts from.
 //
-//	block 1  the bookkeeper (genesis holder) sends ONT to the users
+//	block 1  the bookkeeper (genesis holder) sends ONT and ONG to the users
 //	block 2  ONT IDs: users 0,1,2 register their own id with their key; user 0 adds user 4's key to
 //	         its id (two keys) and two attributes
+//	         two attributes; id 5 is registered with controller id 1; id 0 gets the recovery group {id 1}
 //	block 3  a NeoVM contract that returns its argument (target for APPCALL)
+const setupHeight = 3 // number of setup blocks: probes execute as block setupHeight+1
+
 func setupBlocks(w *world) [][]TxSpec {
 	var b1 []TxSpec
 	for i := 0; i < nUsers; i++ {
 		st := nArr(nStruct(nB(w.book.Address[:]), nB(w.users[i].Address[:]), nI(userOntAmount)))
 		b1 = append(b1, TxSpec{Kind: "native", Contract: ontAddrHex, Method: "transfer", Args: &st, Signers: []int{-1}})
+		sg := nArr(nStruct(nB(w.book.Address[:]), nB(w.users[i].Address[:]), nI(userOngAmount)))
+		b1 = append(b1, TxSpec{Kind: "native", Contract: ongAddrHex, Method: "transfer", Args: &sg, Signers: []int{-1}})
 	}
 	var b2 []TxSpec
 	for i := 0; i < 3; i++ {
@@ -105,6 +110,10 @@ func setupBlocks(w *world) [][]TxSpec {
 	b2 = append(b2, TxSpec{Kind: "native", Contract: ontidAddrHex, Method: "addKey", Args: &add, Signers: []int{0}})
 	attrs := nStruct(nS(w.ids[0]), nI(2), nS("k1"), nS("t1"), nS("v1"), nS("k2"), nS("t2"), nS("v2"), nB(w.pk(0)))
 	b2 = append(b2, TxSpec{Kind: "native", Contract: ontidAddrHex, Method: "?addAttributes", Args: &attrs, Signers: []int{0}})
+	ctl := nStruct(nS(w.ctlID()), nS(w.ids[1]), nI(1))
+	b2 = append(b2, TxSpec{Kind: "native", Contract: ontidAddrHex, Method: "regIDWithController", Args: &ctl, Signers: []int{1}})
+	rec := nStruct(nS(w.ids[0]), nB(w.group(1, 1)), nI(1))
+	b2 = append(b2, TxSpec{Kind: "native", Contract: ontidAddrHex, Method: "setRecovery", Args: &rec, Signers: []int{0}})
 	b3 := []TxSpec{{Kind: "deploy", Code: fmt.Sprintf("%x", echoContract()), Signers: []int{0}}}
 	return [][]TxSpec{b1, b2, b3}
 }
